@@ -88,7 +88,7 @@ class C06(Check):
     TIERS = {'quick': {'runs': 5000, 'wall': 80}, 'thorough': {'runs': 150000, 'wall': 800}}
     RUN_WALL = 120
     MAX_VIRTUAL = 600
-    RULE = ('case = node from generated module classes (1..3 modules, all datatypes, readonly/constant/export flags, '
+    RULE = ('[a third of the generated nodes have a module configured with an uri (automatic communicator); a fifth of the sections state interface_classes / features / implementation of another class] ' 'case = node from generated module classes (1..3 modules, all datatypes, readonly/constant/export flags, '
             'commands, unexported modules) or one of the shipped hardware-free configurations + a probing plan (reads, '
             'changes with boundary payloads, commands, activations, also at undescribed names; repeated describe; driver '
             'glitch assignments of readings the datatype refuses, each followed by a read) + an '
